@@ -677,10 +677,13 @@ def suite_mc_staged(ctx, can_run_model):
         st = rng.choice(["BFS", "DFS"])
         vm = rng.choice(["FULL", "PARTIAL"])
         scs.append(gen_mc.staged(rng, base, "sg%d-%d" % (ctx.seed, j), st, vm, debug=1))
-    impl, parsed = mc_run_all(ctx, scs, can_run_model, "sg", with_ref=False)
+    # with the reference semantics run alongside: C16:stage_union compares every stage run from collected states
+    impl, parsed = mc_run_all(ctx, scs, can_run_model, "sg", with_ref=True)
     for sc in scs:
         runs = parsed[sc[1]]
-        if len(runs) == 2 and runs[0]["collected"] and len(runs[0]["collected"]) >= 2 and len(runs[1]["checks"]) >= 4:
+        if len(runs) == 3:
+            ctx.count("three_stage_runs")
+        if len(runs) >= 2 and runs[0]["collected"] and len(runs[0]["collected"]) >= 2 and len(runs[1]["checks"]) >= 4:
             ctx.nontrivial.add(sc_hash(sc))
             ctx.count("staged_with_2plus_starts")
 
